@@ -295,7 +295,16 @@ class XMIResource(Resource):
                     if not hasattr(resolved_value, '_inverse_rels'):
                         resolved_value = resolved_value.eClass
                     if ref.many:
-                        eobject.__getattribute__(name).append(resolved_value)
+                        coll = eobject.__getattribute__(name)
+                        if ref.eOpposite and not ref.containment \
+                                and getattr(resolved_value, 'resolved', True) \
+                                and resolved_value in coll:
+                            # already linked from the other end: this end
+                            # takes the position the document gives it
+                            coll.remove(resolved_value, update_opposite=False)
+                            coll.append(resolved_value, update_opposite=False)
+                        else:
+                            coll.append(resolved_value)
                     else:
                         eobject.__setattr__(name, resolved_value)
 
